@@ -204,8 +204,9 @@ def oracle (obs : List (List String × String)) : Verdict :=
       | some op =>
         if !admissible created op then
           (if ans = "bad-op" then go more created acc badTag else .error "bad-op-accepted:")
-        else if ans = "timeout" ∨ ans = "skipped" ∨ ans = "crash" then .error ("impl-" ++ ans ++ ":")
-        else if ans.startsWith "panic:" then .error "impl-panic:"
+        else if ans = "timeout" ∨ ans = "skipped" ∨ ans = "crash" ∨ ans = "hang" ∨ ans.startsWith "panic:" then
+          -- the implementation stopped answering here: judge the history up to this point first
+          .ok (acc.reverse, (if ans.startsWith "panic:" then "impl-panic:" else "impl-hang:" ++ ans) :: tags)
         else match parseAns ans with
           | none => .error "unparsable-answer:"
           | some a =>
@@ -217,6 +218,9 @@ def oracle (obs : List (List String × String)) : Verdict :=
   | .ok (h, tags) =>
     match Spec.C24.check {} h with
     | .ok _ =>
+      match tags.find? (fun t => t.startsWith "impl-") with
+      | some t => Verdict.fail t
+      | none =>
       { ok := true, tags := tags,
         nontrivial := h.any fun p => match p.2 with
           | .logic o => !o.runs.isEmpty
